@@ -185,7 +185,8 @@ impl<TInner> Negotiated<TInner> {
                     return Poll::Ready(Err(NegotiationError::Failed));
                 }
 
-                _ => panic!("Negotiated: Invalid state"),
+                // A previous poll failed and left the stream in its terminal failed state.
+                _ => return Poll::Ready(Err(NegotiationError::Failed)),
             }
         }
     }
@@ -295,7 +296,7 @@ where
         match self.project().state.project() {
             StateProj::Completed { io } => io.poll_write(cx, buf),
             StateProj::Expecting { io, .. } => io.poll_write(cx, buf),
-            StateProj::Invalid => panic!("Negotiated: Invalid state"),
+            StateProj::Invalid => Poll::Ready(Err(failed_negotiation())),
         }
     }
 
@@ -303,7 +304,7 @@ where
         match self.project().state.project() {
             StateProj::Completed { io } => io.poll_flush(cx),
             StateProj::Expecting { io, .. } => io.poll_flush(cx),
-            StateProj::Invalid => panic!("Negotiated: Invalid state"),
+            StateProj::Invalid => Poll::Ready(Err(failed_negotiation())),
         }
     }
 
@@ -327,7 +328,7 @@ where
                 }
                 close_poll
             }
-            StateProj::Invalid => panic!("Negotiated: Invalid state"),
+            StateProj::Invalid => Poll::Ready(Err(failed_negotiation())),
         }
     }
 
@@ -339,9 +340,14 @@ where
         match self.project().state.project() {
             StateProj::Completed { io } => io.poll_write_vectored(cx, bufs),
             StateProj::Expecting { io, .. } => io.poll_write_vectored(cx, bufs),
-            StateProj::Invalid => panic!("Negotiated: Invalid state"),
+            StateProj::Invalid => Poll::Ready(Err(failed_negotiation())),
         }
     }
+}
+
+/// The error reported by I/O on a [`Negotiated`] whose (optimistic) negotiation already failed.
+fn failed_negotiation() -> io::Error {
+    io::Error::from(NegotiationError::Failed)
 }
 
 /// Error that can happen when negotiating a protocol with the remote.
